@@ -1,2 +1,262 @@
+"""Lark tables -> lean/PMC/Generated/Grammar.lean
+
+For each of the four parsers (`pyModelChecking.{PL,CTL,LTL,CTLS}.Parser()`) the live `Lark` object is read:
+
+* terminals (name, string literal or one of the three known regular expressions), in the order in which Lark's
+  `TraditionalLexer` tries them (`-priority, -max_width, -len(pattern), name`);
+* ignored terminals;
+* rules after EBNF expansion (origin, rhs symbols with `is_term` / `filter_out`, callback name = alias or origin,
+  inline = origin starts with `_`);
+* the LALR action/goto table (state -> symbol -> Shift state | Reduce rule), start and end state.  Lark numbers
+  the states by iterating over sets (the numbering depends on the hash seed), so the states are renumbered
+  canonically (breadth first from the start state, symbols in sorted order): an unchanged /repo gives a
+  byte-identical file.
+
+Everything the Lean model (`PMC/Model/Parser.lean`) takes for granted about Lark's configuration is asserted here
+(`check_assumptions`); a violated assumption makes `generate()` raise, which `generate_all` reports as EXTRACT-FAILED.
+"""
+import os
+import sys
+import warnings
+
+try:
+    from common import REPO, LEAN
+except Exception:  # stand-alone use
+    REPO = os.environ.get('REPO', '/repo')
+    LEAN = os.path.join(os.path.dirname(os.path.dirname(os.path.dirname(os.path.abspath(__file__)))), 'lean')
+if REPO not in sys.path:
+    sys.path.insert(0, REPO)
+
+LOGICS = ('PL', 'CTL', 'LTL', 'CTLS')
+OUT = os.path.join(LEAN, 'PMC', 'Generated', 'Grammar.lean')
+
+# the three regular expressions the Lean lexer has hand-written matchers for
+REGEXES = {
+    r'[a-zA-Z_][a-zA-Z_0-9]*': '.ident',
+    r'".*?(?<!\\)(\\\\)*?"': '.escapedString',
+    '(?:[ \t\x0c\r\n])+': '.ws',
+}
+
+# Transformer methods modelled by `PMC.Parser.callback`
+CALLBACKS = {
+    'true', 'false', 'string', 'e_string',
+    'a_prop', 'b_formula', 's_formula', 'u_formula', 'p_formula', 'formula',
+    'not_formula', 'or_formula', 'and_formula', 'imply_formula',
+    'forall_formula', 'exists_formula', 'next_formula', 'eventually_formula', 'globally_formula',
+    'until_formula', 'release_formula',
+}
+
+END = '$END'
+
+
+class ExtractError(Exception):
+    pass
+
+
+def need(cond, msg):
+    if not cond:
+        raise ExtractError(msg)
+
+
+def extract(logic):
+    """the tables of one parser as plain Python data (also used by harness/validate_parser.py)"""
+    import importlib
+    from lark.lexer import PatternStr, PatternRE
+    from lark.parsers.lalr_analysis import Shift, Reduce
+    with warnings.catch_warnings():
+        warnings.simplefilter('ignore')
+        M = importlib.import_module('pyModelChecking.' + logic)
+        P = M.Parser()
+    L = P._parser
+    opts = L.options
+    need(opts.parser == 'lalr' and opts.lexer == 'contextual', '%s: not LALR + contextual lexer' % logic)
+    need(not opts.keep_all_tokens and not opts.maybe_placeholders and opts.postlex is None
+         and not opts.lexer_callbacks and opts.g_regex_flags == 0 and not opts.use_bytes
+         and not opts.propagate_positions and opts.edit_terminals is None,
+         '%s: unexpected Lark options' % logic)
+    need(list(opts.start) == ['formula'], '%s: start symbol' % logic)
+    transformer = opts.transformer
+    need(transformer is not None, '%s: no inline transformer' % logic)
+
+    # ---- terminals, in the lexer's order
+    terms = sorted(L.terminals, key=lambda t: (-t.priority, -t.pattern.max_width, -len(t.pattern.value), t.name))
+    terminals = []
+    for t in terms:
+        need(t.priority == 1 and not t.pattern.flags, '%s: terminal %s has a priority or flags' % (logic, t.name))
+        if isinstance(t.pattern, PatternStr):
+            need(len(t.pattern.value) > 0, '%s: empty literal' % logic)
+            terminals.append((t.name, 'lit', t.pattern.value))
+        else:
+            need(isinstance(t.pattern, PatternRE) and t.pattern.value in REGEXES,
+                 '%s: terminal %s is an unknown regular expression %r' % (logic, t.name, t.pattern.value))
+            terminals.append((t.name, 're', t.pattern.value))
+    names = [t[0] for t in terminals]
+    need(len(set(names)) == len(names) and END not in names, '%s: terminal names' % logic)
+    ignore = sorted(L.ignore_tokens)
+    need(set(ignore) <= set(names), '%s: ignored terminals' % logic)
+
+    # ---- rules
+    rules = []
+    for r in L.rules:
+        o = r.options
+        need(not o.keep_all_tokens and not o.expand1 and o.template_source is None, '%s: rule options of %s' % (logic, r))
+        need(len(r.expansion) > 0, '%s: empty rule %s' % (logic, r))
+        origin = r.origin.name
+        inline = origin.startswith('_')
+        cb = r.alias or origin
+        if inline:
+            need(r.alias is None and not hasattr(transformer, cb), '%s: inline rule %s has a callback' % (logic, origin))
+        else:
+            need(cb in CALLBACKS, '%s: callback %s is not modelled' % (logic, cb))
+            need(callable(getattr(transformer, cb, None)), '%s: the transformer has no method %s' % (logic, cb))
+        rhs = []
+        for s in r.expansion:
+            need(s.is_term == (s.name in names), '%s: symbol %s' % (logic, s.name))
+            rhs.append((s.name, bool(s.is_term), bool(getattr(s, 'filter_out', False))))
+        rules.append(dict(origin=origin, rhs=rhs, callback=cb, inline=inline))
+    nonterms = sorted(set(r['origin'] for r in rules))
+    need(not (set(nonterms) & set(names)), '%s: terminal / nonterminal name clash' % logic)
+
+    def rkey(r):
+        return (r.origin.name, tuple(s.name for s in r.expansion), r.alias)
+    rmap = {}
+    for i, r in enumerate(L.rules):
+        need(rkey(r) not in rmap, '%s: duplicate rule' % logic)
+        rmap[rkey(r)] = i
+
+    # ---- LALR table
+    pt = L.parser.parser._parse_table
+    need(list(pt.start_states) == ['formula'], '%s: start states' % logic)
+    start = pt.start_states['formula']
+    end = pt.end_states['formula']
+    raw = {}
+    for st, acts in pt.states.items():
+        row = {}
+        for sym, (a, arg) in acts.items():
+            need(sym == END or sym in names or sym in nonterms, '%s: unknown symbol %s in the table' % (logic, sym))
+            if a is Shift:
+                row[sym] = ('s', arg)
+            else:
+                need(a is Reduce, '%s: unknown action' % logic)
+                row[sym] = ('r', rmap[rkey(arg)])
+        raw[st] = row
+    # canonical numbering
+    order = [start]
+    seen = {start}
+    i = 0
+    while i < len(order):
+        row = raw[order[i]]
+        for sym in sorted(row):
+            k, arg = row[sym]
+            if k == 's' and arg not in seen:
+                seen.add(arg)
+                order.append(arg)
+        i += 1
+    need(len(order) == len(raw), '%s: unreachable LALR states' % logic)
+    num = {old: new for new, old in enumerate(order)}
+    table = []
+    for old in order:
+        row = []
+        for sym in sorted(raw[old]):
+            k, arg = raw[old][sym]
+            row.append((sym, k, num[arg] if k == 's' else arg))
+        table.append(row)
+    # the contextual lexer's accept sets are the terminal keys of the rows: check against the live lexer
+    lexers = getattr(getattr(L.parser, 'lexer', None), 'lexers', None)
+    need(lexers is not None, '%s: cannot reach the contextual lexer' % logic)
+    for old in order:
+        acc = set(s for s in raw[old] if s in names) | set(ignore)
+        live = set(t.name for t in lexers[old].terminals)
+        need(acc == live, '%s: accept set of state %d differs from the live lexer' % (logic, old))
+    root = [t.name for t in L.parser.lexer.root_lexer.terminals]
+    need(root == names, '%s: order of the terminals differs from the live root lexer' % logic)
+    return dict(logic=logic, terminals=terminals, ignore=ignore, rules=rules, table=table,
+                start=num[start], accept=num[end], parser=P)
+
+
+# ------------------------------------------------------------------------------------------------ Lean output
+
+def lstr(s):
+    out = ['"']
+    for c in s:
+        if c == '"':
+            out.append('\\"')
+        elif c == '\\':
+            out.append('\\\\')
+        elif c == '\n':
+            out.append('\\n')
+        elif c == '\t':
+            out.append('\\t')
+        elif c == '\r':
+            out.append('\\r')
+        elif 32 <= ord(c) < 127:
+            out.append(c)
+        else:
+            out.append('\\u{%x}' % ord(c))
+    out.append('"')
+    return ''.join(out)
+
+
+def lbool(b):
+    return 'true' if b else 'false'
+
+
+def lean_of(T):
+    n = T['logic']
+    o = []
+    o.append('/-- terminals of the %s parser, in the order in which Lark\'s lexer tries them -/' % n)
+    o.append('def terminals%s : List Terminal := [' % n)
+    items = []
+    for name, kind, val in T['terminals']:
+        if kind == 'lit':
+            items.append('  ⟨%s, .lit %s⟩' % (lstr(name), lstr(val)))
+        else:
+            items.append('  ⟨%s, %s⟩  /- %s -/' % (lstr(name), REGEXES[val], repr(val).replace('-/', '- /')))
+    o.append(',\n'.join(items) + ']')
+    o.append('')
+    o.append('/-- rules of the %s grammar after EBNF expansion: origin, rhs (name, isTerm, filterOut), callback, inline -/' % n)
+    o.append('def rules%s : List Rule := [' % n)
+    items = []
+    for i, r in enumerate(T['rules']):
+        rhs = ', '.join('⟨%s, %s, %s⟩' % (lstr(s), lbool(t), lbool(f)) for s, t, f in r['rhs'])
+        items.append('  /- %2d -/ ⟨%s, [%s], %s, %s⟩' % (i, lstr(r['origin']), rhs, lstr(r['callback']), lbool(r['inline'])))
+    o.append(',\n'.join(items) + ']')
+    o.append('')
+    o.append('/-- LALR(1) action / goto table of the %s parser (row = state, canonical numbering) -/' % n)
+    o.append('def table%s : List (List (String × Action)) := [' % n)
+    items = []
+    for i, row in enumerate(T['table']):
+        cells = ', '.join('(%s, %s %d)' % (lstr(s), '.shift' if k == 's' else '.reduce', a) for s, k, a in row)
+        items.append('  /- %2d -/ [%s]' % (i, cells))
+    o.append(',\n'.join(items) + ']')
+    o.append('')
+    o.append('def tables%s : Tables :=' % n)
+    o.append('  { terminals := terminals%s, ignore := [%s], rules := rules%s, table := table%s, start := %d, accept := %d }'
+             % (n, ', '.join(lstr(s) for s in T['ignore']), n, n, T['start'], T['accept']))
+    o.append('')
+    return '\n'.join(o)
+
+
+def render(tables):
+    head = ('/-\n'
+            '  GENERATED by harness/extract/larktables.py from the live Lark objects of pyModelChecking — do not edit.\n'
+            '  One `Tables` value per parser: terminals, rules, LALR(1) action/goto table.\n'
+            '-/\n'
+            'import PMC.Model.Parser\n\n'
+            'namespace PMC\nnamespace Parser\n\n')
+    return head + '\n'.join(lean_of(T) for T in tables) + '\nend Parser\nend PMC\n'
+
+
 def generate():
-    return ''
+    from extract.generate_all import write_if_changed
+    tables = [extract(n) for n in LOGICS]
+    changed = write_if_changed(OUT, render(tables))
+    return 'larktables: %s (%s)' % (
+        'rewritten' if changed else 'unchanged',
+        ', '.join('%s %d terminals %d rules %d states' % (T['logic'], len(T['terminals']), len(T['rules']), len(T['table']))
+                  for T in tables))
+
+
+if __name__ == '__main__':
+    sys.path.insert(0, os.path.dirname(os.path.dirname(os.path.abspath(__file__))))
+    print(generate())
